@@ -107,6 +107,10 @@ def boxes_for(F, rng, quick):
     for bad in [(None, None, None), ((2, 2), None, None), (None, (3, 1), None), (None, None, (5, 5)), ((-1, 3), None, None), (None, (0, n[1] + 1), None),
                 (None, None, (0, n[2] + 4)), ((n[0], n[0] + 1), None, None), ((0, n[0]), (0, n[1]), (n[2], n[2]))]:
         out.append(('index', bad))
+    # the same kinds of refusal addressed by coordinate: inverted and empty ranges (in-range coordinates)
+    for bad in [((min(3, n[0] - 1), 1), None, None), (None, (min(4, n[1] - 1), 0), None), (None, None, (min(6, n[2] - 1), 2)), ((2, 2), None, None),
+                (None, None, (3, 3))]:
+        out.append(('coord', bad))
     return out
 
 
